@@ -398,10 +398,13 @@ def check_C03(ctx):
                 "non-trivial = at least one fact")
     tlc(ctx, "mc/MC_CoreIC.cfg", "mc/MC_CoreIC.tla")
     outs = [tlc(ctx, "mc/MC_AnnotHistIC.cfg" if ctx.quick else "mc/MC_AnnotHistIC3.cfg", "mc/MC_AnnotHist.tla", workers=14, timeout=1800)["out"]]
+    # every kind starts with a term-less record: n/N < 1 for every linked term, so a missed link changes the value
+    outs.append(tlc(ctx, "mc/MC_AnnotHistICP.cfg", "mc/MC_AnnotHist.tla", workers=14, timeout=1800)["out"])
     outs.append(sim_full(ctx, 60 if ctx.quick else 1500, 4 if ctx.quick else 8)["out"])
     allout = concat(ctx, outs, "c03-lines.txt")
     s = hv(ctx, "replay-core", prop="C03", **{"in": allout}, jax_every=(4 if ctx.quick else 1), concs="dense,roots0_1,random")
     ctx.traces += s.get("cases", 0)
+    trace_core(ctx, "C03", 10 if ctx.quick else 200)     # incl. sub_ontology: IC consistent with the ontology's own n, N
     ctx.assumptions += ["ln and f32 rounding are evaluated outside TLC (relative tolerance 1e-5); the spec decides the integer arguments",
                         "more than 65535 records of one kind are outside the crate's own contract (u16 conversion error)"]
     return finish(ctx)
@@ -456,7 +459,8 @@ def check_C06(ctx):
                 "with decoy annotations of the other kinds, and gene/omim/orpha_enrichment are compared (one record per linked annotation, count, p within rel 1e-10, fold, range, monotone in k); "
                 "non-trivial = profile with k > 0")
     r = tlc(ctx, "mc/MC_Hyper.cfg" if ctx.quick else "mc/MC_HyperThorough.cfg", "mc/MC_Hyper.tla", workers=14, timeout=3000)
-    s = hv(ctx, "replay-enrich", prop="C06", **{"in": r["out"]})
+    # one process, one thread: all enrichment calls form ONE sequence (state kept between calls would show)
+    s = hv(ctx, "replay-enrich", prop="C06", **{"in": r["out"]}, procs=1)
     ctx.traces += s.get("cases", 0)
     ctx.assumptions += ["the final big-integer division num/den -> f64 is done by the harness (top 24 decimal digits), everything before it is exact TLC arithmetic",
                         "tolerance: relative 1e-10 (N<=400) / 1e-9 above; the unchanged crate is within 8e-13"]
